@@ -405,7 +405,7 @@ fn gen_bucket(rng: &mut Rng, depth: usize) -> Agg {
         4..=6 => {
             let field = *rng.pick(&[Fd::U, Fd::I, Fd::Fl, Fd::JsN, Fd::D, Fd::D]);
             let date_hist = field == Fd::D && rng.chance(2, 3);
-            let interval = if field == Fd::D { *rng.pick(&[1000i64, 30_000, 60_000, 3_600_000, 86_400_000, 500]) }
+            let interval = if field == Fd::D { *rng.pick(&[1000i64, 30_000, 60_000, 3_600_000, 86_400_000, 2000]) }
                 else if field == Fd::Fl { *rng.pick(&[1i64, 2, 4, 10, 20]) } else { *rng.pick(&[1i64, 2, 5, 10, 25]) };
             let offset = if rng.chance(1, 3) {
                 let o = rng.below(interval as u64 * 2 + 1) as i64 - interval;
@@ -429,7 +429,8 @@ fn gen_bucket(rng: &mut Rng, depth: usize) -> Agg {
             // keep the number of filled buckets moderate
             let width = match (ext, hard) { (Some(e), _) => e.1 - e.0, _ => span };
             let interval = if width / interval > 2000 { (width / 500).max(interval) } else { interval };
-            let interval = if field == Fd::D && date_hist { round_date_interval(interval) } else { interval };
+            // date keys are computed in f64 nanoseconds: only whole seconds stay exact
+            let interval = if field == Fd::D { if date_hist { round_date_interval(interval.max(1000)) } else { (interval.max(1000) / 1000) * 1000 } } else { interval };
             Agg::Hist { field, interval, offset: offset.map(|o| o % interval), mdc, hard, ext, date_hist }
         }
         7 | 8 => {
@@ -456,7 +457,7 @@ fn gen_bucket(rng: &mut Rng, depth: usize) -> Agg {
 
 fn round_date_interval(ms: i64) -> i64 {
     for unit in [86_400_000i64, 3_600_000, 60_000, 1000] { if ms >= unit { return (ms / unit) * unit; } }
-    ms.max(1)
+    1000
 }
 
 pub fn gen_nodes(rng: &mut Rng, depth: usize, max_depth: usize, counter: &mut usize) -> Vec<Node> {
